@@ -41,6 +41,15 @@ template <sz N> struct rvec
   friend bool operator!=(rvec const &a, rvec const &b) { return !(a.d == b.d); }
   friend bool operator<(rvec const &a, rvec const &b) { return a.d < b.d; }
 };
+// a converter for structure_cast that is not the identity on equal types: x -> 1 - x
+struct one_minus_fun
+{
+  template <typename Dest, typename Source> static constexpr Dest execute(Source const &_source) noexcept
+  {
+    return static_cast<Dest>(1 - _source);
+  }
+};
+
 template <sz R, sz C> struct rmat
 {
   rvec<R * C> d{}; // row-major
